@@ -260,6 +260,7 @@ func (c *Ctx) Finish(seed int) int {
 		"load_s":              c.P.LoadS,
 		"ssa_s":               c.P.SSAS,
 		"checker_cmd":         strings.Join(os.Args, " "),
+		"parameter_names":     fmt.Sprintf("%d functions rendered under the parameter names recorded in tables/names.tsv (identity = position in an unchanged signature); %d of them have been renamed since", c.P.NamesAliased, c.P.NamesRenamed),
 		"trusted_base":        []string{"go1.26.8 go/types", "golang.org/x/tools v0.50.0 go/packages, go/ssa, callgraph/vta", "reviewed tables under /verif/tables"},
 	}
 	for k, v := range c.Extra {
